@@ -209,9 +209,9 @@ def run(tier, seed):
     chk.add_rule("C04.S.function_and_code_from_one_cached_pair", ok, sites, failing)
     ok, sites, failing = frame.rule_names()
     chk.add_rule("C04.S.names_reserved", ok, sites, failing)
-    n = 12 if tier == "quick" else 120
+    n = 12 if tier == "quick" else 600
     res = [x for r in harness.pmap(_work, [(seed, i) for i in range(n)]) for x in r]
-    m = 16 if tier == "quick" else 160
+    m = 16 if tier == "quick" else 800
     syn = [x for r in harness.pmap(_synth, [(seed, i) for i in range(m)]) for x in r]
     names = many_variables()
     allr = res + syn + names
